@@ -449,8 +449,40 @@ def ag_garbage_then_command(x0: int, x1: int, x2: int, n: int) -> bool:
         return len([o for o in dlc.out[n0:] if c20._FINAL.match(o)]) == 1 and dlc.out[-1] == '\r\nOK\r\n'
 
 
+@harness(pre=['1 <= status <= 255 and 0 <= reason <= 255 and 0 <= hsel <= 1'], family='host', twin=True, kernels=K + ('bumble.host.Host.on_hci_disconnection_complete_event',), timeout=(60, 200),
+         bounds='a Disconnection Complete event that reports FAILURE (status 1..255, symbolic; reason symbolic) for the live connection handle or for an unknown one: the connection persists - the host still knows the handle, incoming ACL data is still routed to it and outgoing data still goes out')
+def failed_disconnection_keeps_the_connection(status: int, reason: int, hsel: int) -> bool:
+    hsel = C(hsel, 0, 1)
+    with detloop.running() as loop:
+        with untraced():
+            h = bhost.Host()
+            h.ready = True
+            out, got = [], []
+            h.acl_packet_queue = bhost.DataPacketQueue(27, 4, out.append)
+            h.le_acl_packet_queue = h.acl_packet_queue
+            h.connections[1] = bhost.Connection(h, 1, hci.Address('F0:F1:F2:F3:F4:F5'), core.PhysicalTransport.LE)
+            h.on('l2cap_pdu', lambda handle, cid, pdu: got.append((handle, cid, bytes(pdu))))
+        try:
+            with cpu_deadline(_BUDGET):
+                h.on_packet(_B(4, 0x05, 4, status, 1 if hsel == 0 else 9, 0, reason))
+        except Stalled:
+            return False
+        except Exception:
+            pass
+        loop.run_ready()
+        if 1 not in h.connections:
+            return False
+        h.on_packet(_B(2, 1, 0x20, 6, 0, 2, 0, 4, 0, 0xAA, 0xBB))         # an ACL packet with a complete 2-byte L2CAP PDU on CID 4
+        loop.run_ready()
+        h.send_l2cap_pdu(1, 4, b'z')
+        return got == [(1, 4, b'\xaa\xbb')] and len(out) == 1
+
+
 def conditions():
-    return registered(__name__) + _parser_conditions()
+    # the AVCTP / AVDTP assemblers' hostile-input conditions live with their reassembly harnesses (C19) and count here too
+    from vf.props import c19
+    borrowed = [c for c in registered(c19.__name__) if c.name.split('@')[0].split('.')[0] in ('avctp_garbage_then_single', 'avdtp_broken_sequence_costs_one_message')]
+    return registered(__name__) + _parser_conditions() + borrowed
 
 
 _flags.int_format_placeholder = True
